@@ -273,7 +273,8 @@ def prove_with_cancellation(hyps, goals, *, inv_atoms=None, log=None, budget_s=3
                 cands.append(b)
     tried = 0
     cands = cands[::-1]
-    mults = list(cands)
+    mults = list(cands) + [b * b for b in cands] + [cands[i] * cands[j] for i in range(len(cands)) for j in range(i + 1, len(cands))]
+    mults = mults[:12]
     for b in mults:
         left = budget_s - (time.time() - t0)
         if left < 5:
